@@ -641,6 +641,9 @@ func checkC19(p *Prog, r *Report) {
 	c04Pipeline(p, r, "C19.O7")
 	// a gap marker left in the radiation series is a radiation of several hundred MJ to the surface formula (shared with C04.R8)
 	sentinelFallback(p, r, "C19.O8")
+	// the surface boundary is the air temperature of the weather record of the day: a day without a record (zeros left
+	// in the arrays) imposes 0 degC — every stored value is guarded by the consecutive-day test (shared with C04.R2)
+	c04ReadersAs(p, r, "C19.O9")
 }
 
 func uniq(ss []string) []string {
